@@ -40,7 +40,7 @@ IdBijection == \A i \in 0..(g.N - 1) : \A k \in Shard(i, g.n, g.N) : Rebased(i, 
 Digit(k) == <<"0","1","2","3","4","5","6","7","8","9">>[k + 1]
 Name(k) == IF k < 10 THEN Digit(k) ELSE Digit(k \div 10) \o Digit(k % 10)
 AVal(k) == <<"x", "y", "z">>[(k % 3) + 1]
-\* (span: 44 ticks of samples; 140 for the long window)
+\* (span: 44 ticks of samples; 165 for the long window)
 Data(n, span) == [k \in 1..n |-> Series(<< <<"__name__","m">>, <<"a", AVal(k)>>, <<"i", Name(k)>> >>,
                                   [u \in 1..span |-> Smp(u - 1, IF (k + u) % 11 = 0 THEN "s" ELSE "f", 100 * k + u)])]
            \o [k \in 1..(IF n > 3 THEN 3 ELSE n) |-> Series(<< <<"__name__","n">>, <<"a", AVal(k)>> >>, [u \in 1..span |-> Smp(u - 1, "f", k + 1)])]
@@ -75,9 +75,9 @@ Basket == <<
   Over(M, LAMBDA c : Agg("avg", TRUE, <<>>, <<c>>)), Over(M, LAMBDA c : Agg("avg", TRUE, <<"a">>, <<c>>)), Over(M, LAMBDA c : Agg("avg", FALSE, <<"i">>, <<c>>)) >>
 
 \* "late": 12 steps from tick 30 on (the long windows are full there)
-\* "long": 130 steps over 140 ticks of samples (results of up to 40 series with more than 121 points each)
-ScnOf(x) == Scn("shard", "C11", TickMs, Data(x.n, IF x.win = "long" THEN 140 ELSE 44), Basket[x.q], IF x.win = "late" THEN 30 ELSE 2,
-                IF x.win = "instant" THEN 2 ELSE IF x.win = "range" THEN 13 ELSE IF x.win = "long" THEN 131 ELSE 41,
+\* "long": 150 steps over 165 ticks of samples (results of up to 40 series with more than 121 points each, staleness markers included)
+ScnOf(x) == Scn("shard", "C11", TickMs, Data(x.n, IF x.win = "long" THEN 165 ELSE 44), Basket[x.q], IF x.win = "late" THEN 30 ELSE 2,
+                IF x.win = "instant" THEN 2 ELSE IF x.win = "range" THEN 13 ELSE IF x.win = "long" THEN 151 ELSE 41,
                 IF x.win = "instant" THEN 0 ELSE 1, 2, 0)
 \* one scenario per (n, query, window): N only matters for the model-level laws
 \* (the long window: the two largest series counts under five of the queries - in every residue class)
